@@ -12,8 +12,15 @@ Proof. reflexivity. Qed.
 Lemma excl_copied_true : excl_copied = true.
 Proof. reflexivity. Qed.
 
+Lemma extractor_fresh_true : extractor_fresh = true.
+Proof. reflexivity. Qed.
+
 Lemma set_lists_id g : set_lists g (g_excl g) (g_incl g) = g.
 Proof. destruct g; reflexivity. Qed.
+
+(** main builds its own MetaExtractor: the shared default extractor is left alone *)
+Lemma after_extractor_id g x : after_extractor g x = g.
+Proof. unfold after_extractor. rewrite extractor_fresh_true. reflexivity. Qed.
 
 (** ------------------------------------------------------------------ no state *)
 
@@ -24,7 +31,7 @@ Proof.
   destruct (a_list_translators a); [reflexivity|].
   destruct (a_default_regexes a); [reflexivity|].
   destruct (build_extractor g a) as [x|]; [|reflexivity].
-  unfold init_extend. rewrite incl_copied_true, excl_copied_true. cbv beta iota zeta.
+  rewrite after_extractor_id. unfold init_extend. rewrite incl_copied_true, excl_copied_true. cbv beta iota zeta.
   rewrite set_lists_id.
   destruct (build_order i (a_time_var a) (a_time_order a)) as [t_ord|e1]; [|reflexivity].
   destruct (build_order i (a_vector_var a) (a_vector_order a)) as [v_ord|e2]; [|reflexivity].
@@ -163,7 +170,7 @@ Proof.
   destruct (a_list_translators a); [discriminate|].
   destruct (a_default_regexes a); [discriminate|].
   destruct (build_extractor g a) as [x|] eqn:Ex; [|discriminate].
-  unfold init_extend. rewrite incl_copied_true, excl_copied_true. cbv beta iota zeta.
+  rewrite after_extractor_id. unfold init_extend. rewrite incl_copied_true, excl_copied_true. cbv beta iota zeta.
   rewrite set_lists_id.
   destruct (build_order i (a_time_var a) (a_time_order a)) as [t_ord|e1] eqn:Et;
     [|cbn [snd]; intros H; injection H as <- <-; intros []].
@@ -229,7 +236,7 @@ Proof.
   destruct (a_list_translators a); [discriminate|].
   destruct (a_default_regexes a); [discriminate|].
   destruct (build_extractor g a) as [x|] eqn:Ex; [|discriminate].
-  unfold init_extend. rewrite incl_copied_true, excl_copied_true. cbv beta iota zeta.
+  rewrite after_extractor_id. unfold init_extend. rewrite incl_copied_true, excl_copied_true. cbv beta iota zeta.
   rewrite set_lists_id.
   destruct (build_order i (a_time_var a) (a_time_order a)) as [t_ord|e1] eqn:Et;
     [|cbn [snd]; intros H; injection H as <- <-; left; reflexivity].
